@@ -40,6 +40,11 @@ CLAIMED["C19"] = ("exploration",
  "Seeded search over (POM universe within the supported subset, 1-4 repositories, root list, latency schedule, 0-2 network faults). T0: result equals the reference resolver (order, coordinates, versions, scopes, serving repository = first in list order). T1: latency and 404 fallbacks never change the result; bounded polls. T2: Err, or the fault-free / faulty-repo-absent answer; after faults stop a fresh call gives the T0 answer within a poll budget; cancel-then-retry equals an uninterrupted call. Display/parse round trips ride along. Sampling, not proof.",
  "trusted: refmvn (reference resolver from Maven's dependency-mechanism guide), SimNet, harness executor, serde-xml-rs; request order is logged, never constrained; generator restrictions listed in evidence assumptions",
  "DESIGN.md section 4 C19")
+CLAIMED["C16"] = ("fault_enumeration",
+ "deterministic fault injection on the parsers' input media, observed from sandboxed child processes: per seed input (hand-built self-referential / deeply nested class files, generated and corpus class files with the reference encoder's offset map, generated Tiny v2 / tinydiff / Enigma / nests texts, descriptor strings) truncation at every offset, every length/count/index/offset/tag field at boundary values, bit flips, line and token edits, seeded multi-byte edits; verdict = the child returned (Ok or Err) without panic, abort, stack overflow, fuel exhaustion or allocation beyond a bound tied to the input length",
+ "Enumeration, not sampling, of the single-fault space per seed input for truncations, field boundary values and line/token edits (bit flips and multi-byte edits are sampled); the seed inputs are a seeded sample plus the vendored corpus plus hand-built adversarial structures. Every damaged input is given to the real duke::read_class (+ write_class on whatever it accepted), read_class_multi with the unit visitor, tiny_v2::read<2|3>, tiny_v2_diff::read and read_file, enigma_file::read_into, Nests::read, and the three descriptor parsers (+ write on what they accepted). Panics are caught in the child; allocation is accounted by the harness allocator (limit 64 MiB + 1024 x input length live bytes); the byte source has step fuel; stack overflow, allocation-failure abort and CPU loops kill the child and are classified by the parent, which restarts behind the fatal case. One witness (the smallest input) per violation identity is written as a replay file and re-run in a fresh sandboxed child by --replay.",
+ "trusted: refclass encoder offset map (only to locate fields; a wrong map would aim mutations badly, never raise a false alarm), refmap/refdiff writers for seed texts, the sandbox (sh ulimit backstops, harness allocator, fixed 8 MiB worker stack, 45 s no-progress watchdog); 'returns' is judged at these limits, stated in evidence",
+ "DESIGN.md section 4 C16")
 PENDING = {}  # id -> reason (claimed in DESIGN.md but the check is not built yet)
 
 def main():
